@@ -111,7 +111,30 @@ def analyse_prox(call, resolver, local_kin):
                             ok_z = False
             if not ok_z:
                 problems.append(f"reservoir scaling `{zs}` is not (normal force of the linked contact `[...i_N]` | dt | 1.0)")
-    return dict(kind=kind, ok=not problems, problems=problems, desc=norm_src(call)[:140])
+    # friction: one scalar prox parameter per (vector valued) friction law.  P = -prox_C(r * xi - P) characterises
+    # -xi in N_C(-P) (Coulomb: P opposes the slip) only for a scalar r > 0; with a per-component vector r the fixed point
+    # satisfies -(r o xi) in N_C(-P), i.e. the friction force opposes the component-wise scaled slip.
+    scalar_r, scalar_msg = None, ""
+    if kind == "F":
+        REDUCE = ("min", "max", "amin", "amax", "mean", "average", "median")
+        def reduced(e):
+            return isinstance(e, ast.Call) and (dotted(e.func) or "").split(".")[-1] in REDUCE
+        def idx_of(e):
+            return norm_src(e.slice) if isinstance(e, ast.Subscript) else None
+        kin_idx = idx_of(kin) or idx_of(force)
+        r_core = r
+        if isinstance(r_core, ast.Name) and r_core.id in resolver.local and len(resolver.local[r_core.id]) == 1:
+            r_core = resolver.local[r_core.id][0]
+        if reduced(r_core) or isinstance(r_core, ast.Constant):
+            scalar_r = True
+        elif isinstance(r_core, ast.Subscript) and kin_idx is not None and idx_of(r_core) == kin_idx:
+            scalar_r = False
+            scalar_msg = (f"the friction projection uses the per-component prox parameters `{norm_src(r)}` (same index `{kin_idx}` as the slip components): for a friction "
+                          f"law with more than one tangential component the fixed point is then -(r o xi) in N_C(-P) instead of Coulomb's -xi in N_C(-P), so the friction "
+                          f"force does not oppose the slip whenever the components of r differ; a single scalar (e.g. min(r[{kin_idx}])) is required")
+        else:
+            scalar_r = None
+    return dict(kind=kind, ok=not problems, problems=problems, desc=norm_src(call)[:140], scalar_r=scalar_r, scalar_msg=scalar_msg)
 
 
 def local_kinematics(fn, resolver):
